@@ -270,6 +270,10 @@ pub fn objects_file(r: &mut Rng, level: u8, mode: u8, chronological: bool, slide
     let last = object_lines(r, level, chronological, sliders, 10, &mut ho).max(1000.0);
     lines.push("[General]".into());
     gen_osu::general(r, &o, mode, &mut lines);
+    if level >= 1 && r.chance(1, 5) {
+        // path separators: `\` is normalised to `/` by the decoder (last record wins)
+        lines.push(format!("AudioFilename: {}", *r.pick(&["dir\\sub\\a.mp3", "a\\\\b.mp3", "dir\\/a.mp3", "x/\\y.ogg", "a/b/c.mp3", "\\\\server\\a.mp3"])));
+    }
     lines.push(String::new());
     lines.push("[Editor]".into());
     gen_osu::editor(r, &o, &mut lines);
@@ -282,6 +286,9 @@ pub fn objects_file(r: &mut Rng, level: u8, mode: u8, chronological: bool, slide
     lines.push(String::new());
     lines.push("[Events]".into());
     gen_osu::events(r, &o, last, &mut lines);
+    if level >= 1 && r.chance(1, 5) {
+        lines.push(format!("0,0,\"{}\",0,0", *r.pick(&["dir\\bg.jpg", "dir\\\\bg.jpg", "dir\\/bg.jpg", "a/\\b.png", "\\\\\\\\x.png", " spaced .jpg"])));
+    }
     lines.push(String::new());
     lines.push("[TimingPoints]".into());
     timing_lines(r, level, chronological, last, &mut lines);
@@ -355,7 +362,7 @@ fn kind_tag(h: &HitObject) -> u8 {
     }
 }
 
-/// D20: no explicit length and a computed curve longer than the decoder's length limit
+/// D21: no explicit length and a computed curve longer than the decoder's length limit
 pub fn d18_object(h: &HitObject) -> bool {
     match &h.kind {
         HitObjectKind::Slider(s) => {
@@ -372,7 +379,7 @@ pub fn d18_object(h: &HitObject) -> bool {
 
 pub fn lost_class(h: &HitObject) -> &'static str {
     if d18_object(h) {
-        "D20"
+        "D21"
     } else {
         ""
     }
@@ -528,6 +535,15 @@ pub fn oracle(map: &mut Beatmap, input: &str, origin: &str, out: &mut Out) -> Op
             if m2.control_points.timing_points.len() != timing_flag_lines || timing_flag_lines != map.control_points.timing_points.len() {
                 out.fail(zero_time_class(map), &desc, &format!("timing points: {} in the map, {} uninherited lines written, {} after re-decoding", map.control_points.timing_points.len(), timing_flag_lines, m2.control_points.timing_points.len()));
             }
+            // not misread: the fields of the six simple sections read back as written
+            let f1 = crate::registry::c02::simple_fields(map);
+            let f2 = crate::registry::c02::simple_fields(&m2);
+            for ((n, a), (_, b)) in f1.iter().zip(f2.iter()) {
+                out.oracle_checks += 1;
+                if a != b && crate::registry::c02::carried(n, map) {
+                    out.fail(slashes_class(n, map), &desc, &format!("field {} is written from {} and read back as {}", n, a, b));
+                }
+            }
             if m2.format_version != map.format_version {
                 out.fail("", &desc, &format!("format version {} re-read as {}", map.format_version, m2.format_version));
             }
@@ -566,6 +582,16 @@ pub fn rejected_object_lines(enc: &str, version: i32) -> Vec<bool> {
         }
     }
     res
+}
+
+/// D23: a file name in which the decoder's `\\` -> `/` normalisation produced `//`
+pub fn slashes_class(field: &str, map: &Beatmap) -> &'static str {
+    let v = match field {
+        "audio_file" => &map.audio_file,
+        "background_file" => &map.background_file,
+        _ => return "",
+    };
+    if v.contains("//") { "D23" } else { "" }
 }
 
 /// D8: two timing points at the numerically equal times -0.0 / +0.0
